@@ -30,6 +30,8 @@ type Prog struct {
 	GoArch  string
 
 	Norm *normStats // what the normalisation did (nil if switched off)
+	// RenamedAnchors: field anchors that no longer resolve by name and were recognised by type
+	RenamedAnchors []string
 
 	ext map[string]*types.Package // every package reachable through imports, by path
 }
@@ -239,13 +241,36 @@ func (p *Prog) Field(pkg, typ, name string) *types.Var {
 	if !ok {
 		panic(anchorLost{pkg + "." + typ + " (not a struct)"})
 	}
+	key := pkg + "." + typ + "." + name
+	qual := func(q *types.Package) string { return q.Name() }
 	for i := 0; i < st.NumFields(); i++ {
 		if st.Field(i).Name() == name {
+			fieldAnchorsUsed[key] = types.TypeString(st.Field(i).Type(), qual)
 			return st.Field(i)
+		}
+	}
+	// renamed? an unexported field is also recognised by its type, when that type (as recorded on the
+	// pinned tree) is borne by exactly one field of the struct
+	if want, has := fieldAnchorTypes[key]; has && !token.IsExported(name) {
+		var hit *types.Var
+		cnt := 0
+		for i := 0; i < st.NumFields(); i++ {
+			if types.TypeString(st.Field(i).Type(), qual) == want {
+				hit = st.Field(i)
+				cnt++
+			}
+		}
+		if cnt == 1 {
+			p.RenamedAnchors = append(p.RenamedAnchors, key+" -> "+hit.Name())
+			return hit
 		}
 	}
 	panic(anchorLost{pkg + "." + typ + "." + name + " (field)"})
 }
+
+// fieldAnchorsUsed records, per run, every field anchor resolved by name with its type (dev tool
+// -dump-field-anchors regenerates anchors_fields.go from it).
+var fieldAnchorsUsed = map[string]string{}
 
 // ExtPkg returns a dependency's types.Package.
 func (p *Prog) ExtPkg(path string) *types.Package {
